@@ -252,3 +252,69 @@ def readsie_spec(C, self, pos):
     if sym.truth(V.bit(p)):
         return -c, p + 1
     return c, p + 1
+
+
+# ---- generators of long codes for the bounded stand-in / native cross-check --------------------------------------------------------
+# (written here from the definitions of the four codes -- not with the library's encoders, which are under verification themselves)
+def code_bits(name, v):
+    """the codeword of v as a list of bools"""
+    if name == 'se':
+        return code_bits('ue', 2 * v - 1 if v > 0 else -2 * v)
+    if name == 'sie':
+        return code_bits('uie', abs(v)) + ([v < 0] if v != 0 else [])
+    x = bin(v + 1)[2:]                      # v + 1 in binary, leading 1 first
+    if name == 'ue':
+        return [False] * (len(x) - 1) + [ch == '1' for ch in x]
+    out = []
+    for ch in x[1:]:                        # uie: each further bit of v + 1 preceded by a 0, then the closing 1
+        out += [False, ch == '1']
+    return out + [True]
+
+
+BIG_MAGNITUDES = (62, 63, 64, 65, 66, 70, 127, 128, 129, 130, 200)
+
+
+def big_value(rng, name):
+    k = rng.choice(BIG_MAGNITUDES)
+    v = rng.choice([(1 << k) - 2, (1 << k) - 1, 1 << k, (1 << k) + 1, rng.randrange(1 << k, 1 << (k + 1))])
+    if name in ('se', 'sie') and rng.random() < 0.5:
+        v = -v
+    return v
+
+
+def stream_vals(rng, cls, st, data, pos, name='self'):
+    """the input dictionary of a (cls, st) object holding `data`, positioned at pos"""
+    v = {}
+    if st in ('buffer', 'buffer_full'):
+        pad = (-len(data)) % 8 + (8 * rng.randint(0, 2) if st == 'buffer' else 0)
+        v[name + '.raw'] = list(data) + [rng.random() < 0.5 for _ in range(pad)]
+        if st == 'buffer':
+            v[name + '.ml'] = len(data)
+    else:
+        v[name] = list(data)
+    if cls in ('ConstBitStream', 'BitStream'):
+        v[name + '.pos'] = pos
+    return v
+
+
+def long_code_gen(cls, st, names, extra=None):
+    """rng -> inputs: half of the time a short random stream, otherwise `names` codes of 125..401 bits each starting at pos
+    (sometimes cut short, which must raise ReadError), preceded and followed by a few random bits"""
+    def gen(rng):
+        if rng.random() < 0.4:
+            n = rng.randint(0, 12)
+            data = [rng.random() < 0.5 for _ in range(n)]
+            v = stream_vals(rng, cls, st, data, rng.randint(0, n))
+        else:
+            pre = [rng.random() < 0.5 for _ in range(rng.randint(0, 9))]
+            body = []
+            for nm in names:
+                body += code_bits(nm, big_value(rng, nm) if rng.random() < 0.8 else rng.randint(0, 9))
+            if rng.random() < 0.15:
+                body = body[:rng.randint(0, len(body) - 1)] if body else body
+            post = [rng.random() < 0.5 for _ in range(rng.randint(0, 9))]
+            v = stream_vals(rng, cls, st, pre + body + post, len(pre))
+        if extra is not None:
+            extra(rng, v)
+        return v
+    return gen
